@@ -11,7 +11,6 @@ use crate::{
 
 use std::{
   borrow::Cow,
-  convert::TryFrom,
   fmt::{self, Write},
 };
 
@@ -2798,7 +2797,7 @@ impl<'a> Visitor<'a, '_, Error> for JSONValidator<'a> {
       }
       Value::String(s) => {
         if is_ident_uri_data_type(self.state.cddl, ident) {
-          if let Err(e) = uriparse::URI::try_from(&**s) {
+          if let Err(e) = validate_uri(s) {
             self.add_error(format!("expected URI data type, decoding error: {}", e));
           }
         } else if is_ident_b64url_data_type(self.state.cddl, ident) {
